@@ -6,9 +6,10 @@
 From AM Require Export Base.Prelude Model.Matchers Model.Silence.
 
 (* XMarshal: the records Silences.MarshalBinary writes (the full state of a push/pull exchange), as a set *)
-Inductive xop := XOp (o : op) | XDump | XMarshal.
+(* XLimit n: the operator changes Limits.MaxSilenceSizeBytes to n (the limit is a function read at every call) *)
+Inductive xop := XOp (o : op) | XDump | XMarshal | XLimit (maxsize : Z).
 Inductive xout := XOut (o : out) | XDumped (st_ids mi_ids : list string) (vi_ : list (Z * string)) (ver_ : Z)
-  | XMarshalled (recs : list wire).
+  | XMarshalled (recs : list wire) | XLimited.
 
 Record case := mkCase { k_cfg : cfg; k_ext : ext_table; k_hist : list (Z * xop * xout) }.
 
@@ -31,6 +32,7 @@ Definition xout_eqb (model impl : xout) : bool :=
   match model, impl with
   | XOut a, XOut b => out_compat a b
   | XDumped s1 m1 v1 n1, XDumped s2 m2 v2 n2 => same_set s1 s2 && same_set m1 m2 && beq v1 v2 && (n1 =? n2)
+  | XLimited, XLimited => true
   | XMarshalled r1, XMarshalled r2 =>
       (length r1 =? length r2)%nat && forallb (fun w => bool_decide (w ∈ r2)) r1 && forallb (fun w => bool_decide (w ∈ r1)) r2
   | _, _ => false
@@ -41,12 +43,16 @@ Definition xstep (c : cfg) (x : ext) (S : store) (now : Z) (o : xop) : store * x
   | XOp o => let '(S', y) := step c x S now o in (S', XOut y)
   | XDump => let '(a, b, v, n) := dump S in (S, XDumped a b v n)
   | XMarshal => (S, XMarshalled (map (fun kv => encode_rec (snd kv)) (map_to_list (st S))))
+  | XLimit _ => (S, XLimited)
   end.
+
+Definition xcfg (c : cfg) (o : xop) : cfg :=
+  match o with XLimit n => mkCfg (c_ret c) (c_maxsil c) n | _ => c end.
 
 Fixpoint xrun (c : cfg) (x : ext) (S : store) (h : list (Z * xop)) : list xout :=
   match h with
   | [] => []
-  | (now, o) :: r => let '(S', y) := xstep c x S now o in y :: xrun c x S' r
+  | (now, o) :: r => let '(S', y) := xstep c x S now o in y :: xrun (xcfg c o) x S' r
   end.
 
 Definition model_outs (k : case) : list xout :=
@@ -100,6 +106,7 @@ Fixpoint hist_ok (c : cfg) (x : ext) (S : store) (h : list (Z * xop)) : bool :=
       let S' := fst (step c x S now o) in
       (negb (is_local o) || step_ok c S now o S') && hist_ok c x S' r
   | (_, XDump) :: r | (_, XMarshal) :: r => hist_ok c x S r
+  | (_, XLimit n) :: r => hist_ok (xcfg c (XLimit n)) x S r
   end.
 
 Definition prop_case (k : case) : bool :=
